@@ -28,10 +28,11 @@ def sh(cmd, timeout=None, inp=None):
         return -9, "timeout"
 
 
-def emit_ir(wrapper, repo, workdir, extra=()):
+def emit_ir(wrapper, repo, workdir, extra=(), exceptions=False):
     os.makedirs(workdir, exist_ok=True)
     ll = os.path.join(workdir, os.path.basename(wrapper).replace(".cpp", ".ll"))
-    rc, out = sh([CLANG] + CLANG_FLAGS + list(extra) + ["-I" + os.path.join(repo, "include"), wrapper, "-o", ll])
+    flags = [f for f in CLANG_FLAGS if not (exceptions and f == "-fno-exceptions")]
+    rc, out = sh([CLANG] + flags + list(extra) + ["-I" + os.path.join(repo, "include"), wrapper, "-o", ll])
     if rc != 0:
         return None, out
     return ll, ""
@@ -320,7 +321,192 @@ def job_split(job, tier, repo, workdir):
     return res
 
 
-KINDS = {"split": job_split}
+
+# ---- C16: the per-rank share expression sliced out of the drivers' IR ---------------------------------------
+REPLAY_SHARE = r"""
+#include <mpi.h>
+#include <cstdio>
+#include <cstdlib>
+#include <istream>
+#include <ostream>
+static int g_rank = 0, g_world = 1;
+int MPI_Comm_rank(MPI_Comm, int* r) { *r = g_rank; return 0; }
+int MPI_Comm_size(MPI_Comm, int* s) { *s = g_world; return 0; }
+int MPI_Allreduce(void const*, void*, int, MPI_Datatype, MPI_Op, MPI_Comm) { return 0; }
+#include "hep/mc/multi_channel_integrand.hpp"
+#include "hep/mc/mpi_multi_channel.hpp"
+#include "hep/mc/mpi_plain.hpp"
+#include "hep/mc/mpi_vegas.hpp"
+static unsigned long g_count = 0;
+struct fast_engine { using result_type = unsigned; static constexpr unsigned min() { return 0; } static constexpr unsigned max() { return 0xffffffffu; }
+    unsigned operator()() { return 12345u; } void discard(unsigned long long) {} };
+inline std::ostream& operator<<(std::ostream& o, fast_engine const&) { return o << 0; }
+inline std::istream& operator>>(std::istream& i, fast_engine&) { int x; return i >> x; }
+struct fn { double operator()(hep::mc_point<double> const&) const { ++g_count; return 0.0; } };
+struct mp { double operator()(std::size_t, std::vector<double> const&, std::vector<double>&, std::vector<std::size_t> const&,
+    std::vector<double>&, hep::multi_channel_map) const { return 1.0; } };
+template <typename C> struct quiet { bool operator()(MPI_Comm, C const&) const { return false; } };
+int main(int argc, char** argv) {
+    int which = std::atoi(argv[1]); unsigned long calls = std::strtoul(argv[2], 0, 10); g_rank = std::atoi(argv[3]); g_world = std::atoi(argv[4]);
+    std::vector<std::size_t> c(1, calls);
+    if (which == 0) { auto k = hep::make_plain_chkpt<double>(fast_engine()); hep::mpi_plain(MPI_COMM_WORLD, hep::make_integrand<double>(fn(), 1), c, k, quiet<decltype(k)>()); }
+    if (which == 1) { auto k = hep::make_vegas_chkpt<double>(2, 1.5, fast_engine()); hep::mpi_vegas(MPI_COMM_WORLD, hep::make_integrand<double>(fn(), 1), c, k, quiet<decltype(k)>()); }
+    if (which == 2) { auto k = hep::make_multi_channel_chkpt<double>(0.0, 0.25, fast_engine()); hep::mpi_multi_channel(MPI_COMM_WORLD, hep::make_multi_channel_integrand<double>(fn(), 1, mp(), 1, 2), c, k, quiet<decltype(k)>()); }
+    unsigned long q = calls / (unsigned long) g_world, rem = calls % (unsigned long) g_world;
+    unsigned long expected = q + ((unsigned long) g_rank < rem ? 1 : 0);
+    std::printf("count=%lu expected=%lu\n", g_count, expected);
+    return g_count == expected ? 0 : 1;
+}
+"""
+
+
+def slice_share(ll_text, driver, iteration):
+    """returns (smt bit-vector expression of the number of calls handed to <iteration> inside <driver>, None) or (None, reason)"""
+    m = re.search(r"^define [^\n]*@(_ZN3hep\d+%s[^\(]*)\(.*?\n(.*?)^}" % driver, ll_text, re.S | re.M)
+    if not m:
+        return None, "driver %s not found in IR" % driver
+    body = m.group(2)
+    defs = {}
+    for line in body.splitlines():
+        mm = re.match(r"^\s+(%[\w.]+) = (.*)$", line)
+        if mm:
+            defs[mm.group(1)] = mm.group(2).split(", !")[0].strip()
+    rk = re.search(r"@\w*MPI_Comm_rank\w*\(i32[^,]*, i32\* (?:noundef )?(?:nonnull )?(%[\w.]+)\)", body)
+    wd = re.search(r"@\w*MPI_Comm_size\w*\(i32[^,]*, i32\* (?:noundef )?(?:nonnull )?(%[\w.]+)\)", body)
+    if not rk or not wd:
+        return None, "MPI_Comm_rank / MPI_Comm_size calls not found"
+    it = re.search(r"(?:invoke|call) [^\n]*@_ZN3hep\d+%s[^\(]*\(([^\n]*)" % iteration, body)
+    if not it:
+        return None, "call of %s not found" % iteration
+    am = re.search(r"i64 (?:noundef )?(%[\w.]+)", it.group(1))
+    if not am:
+        return None, "no i64 argument in the call of %s" % iteration
+    enc = ir2smt.Enc("bv")
+
+    def tr(v, ty, depth=0):
+        if depth > 60:
+            raise ir2smt.Unsupported("slice too deep")
+        if re.match(r"^-?\d+$", v) or v in ("true", "false"):
+            return enc.const(ty, v)
+        ins = defs.get(v)
+        if ins is None:
+            raise ir2smt.Unsupported("leaf " + v)
+        mm = re.match(r"^load (i\d+), i\d+\* (%[\w.]+)", ins)
+        if mm:
+            if mm.group(2) == rk.group(1):
+                return "rank"
+            if mm.group(2) == wd.group(1):
+                return "world"
+            if mm.group(1) == "i64":
+                return "calls"
+            raise ir2smt.Unsupported("load " + ins)
+        mm = re.match(r"^(add|sub|mul|udiv|urem|sdiv|srem|and|or|xor|shl|lshr)(?: nuw| nsw| exact)* (i\d+) (\S+), (\S+)$", ins)
+        if mm:
+            a, b = tr(mm.group(3), mm.group(2), depth + 1), tr(mm.group(4), mm.group(2), depth + 1)
+            if mm.group(1) in ("sdiv", "srem"):
+                return "(%s %s %s)" % ({"sdiv": "bvsdiv", "srem": "bvsrem"}[mm.group(1)], a, b)
+            return enc.binop(mm.group(1), mm.group(2), a, b)
+        mm = re.match(r"^icmp (\w+) (i\d+) (\S+), (\S+)$", ins)
+        if mm:
+            return enc.icmp(mm.group(1), mm.group(2), tr(mm.group(3), mm.group(2), depth + 1), tr(mm.group(4), mm.group(2), depth + 1))
+        mm = re.match(r"^(zext|sext|trunc) (i\d+) (\S+) to (i\d+)$", ins)
+        if mm:
+            src, dst = int(mm.group(2)[1:]), int(mm.group(4)[1:])
+            x = tr(mm.group(3), mm.group(2), depth + 1)
+            if mm.group(1) == "trunc":
+                return "((_ extract %d 0) %s)" % (dst - 1, x)
+            if src == 1:
+                return "(ite %s %s %s)" % (x, enc.const(mm.group(4), 1 if mm.group(1) == "zext" else -1), enc.const(mm.group(4), 0))
+            return "((_ %s %d) %s)" % ("zero_extend" if mm.group(1) == "zext" else "sign_extend", dst - src, x)
+        mm = re.match(r"^select i1 (\S+), (i\d+) (\S+), i\d+ (\S+)$", ins)
+        if mm:
+            return "(ite %s %s %s)" % (tr(mm.group(1), "i1", depth + 1), tr(mm.group(3), mm.group(2), depth + 1), tr(mm.group(4), mm.group(2), depth + 1))
+        raise ir2smt.Unsupported("instruction in slice: " + ins)
+
+    try:
+        return tr(am.group(1), "i64"), None
+    except ir2smt.Unsupported as ex:
+        return None, str(ex)
+
+
+def job_share(job, tier, repo, workdir):
+    """C16: the share expression of the three MPI drivers equals q + (rank < rem) for all 64-bit call counts and all int rank < world"""
+    res = dict(checks={}, violations=[], inconclusive=[], samples=[], obligations=0, discharged=0, queries=0, solver_s=0.0,
+               states=0, transitions=0, replays=0)
+    wrapper = os.path.join(HERE, "harness_i", "w_drivers.cpp")
+    ll, err = emit_ir(wrapper, repo, workdir, extra=["-fno-inline", "-I" + os.path.join(HERE, "sym", "mpi_stub")], exceptions=True)
+    if ll is None:
+        res["inconclusive"].append("clang failed: " + err[-400:])
+        return res
+    ll_text = open(ll).read()
+    cap = job.get("cap", 60 if tier == "quick" else 600)
+    drivers = [("mpi_plain", "plain_iteration", 0), ("mpi_vegas", "vegas_iteration", 1), ("mpi_multi_channel", "multi_channel_iteration", 2)]
+    spec = "(bvadd (bvudiv calls ((_ sign_extend 32) world)) (ite (bvult ((_ sign_extend 32) rank) (bvurem calls ((_ sign_extend 32) world))) (_ bv1 64) (_ bv0 64)))"
+    decl = "(declare-const calls (_ BitVec 64))\n(declare-const rank (_ BitVec 32))\n(declare-const world (_ BitVec 32))\n"
+    pre = "(and (bvsle (_ bv0 32) rank) (bvslt rank world))"
+    rexe = None
+    for drv, itn, which in drivers:
+        key = "C16|drivers.%s_hands_the_documented_share_to_the_iteration" % drv
+        st = res["checks"].setdefault(key, dict(reached=1, discharged=0, violated=0, unknown=0))
+        res["obligations"] += 1
+        res["states"] += 1
+        expr, why = slice_share(ll_text, drv, itn)
+        if expr is None:
+            st["unknown"] = 1
+            res["inconclusive"].append("%s: share expression could not be sliced from the IR: %s" % (drv, why))
+            continue
+        base = "(set-logic ALL)\n(set-option :produce-models true)\n" + decl + "(assert %s)\n(assert (not (= %s %s)))\n" % (pre, expr, spec)
+        # prefer a counterexample that can be replayed (few enough calls)
+        verdict, answers, dt = solve(base + "(assert (bvult calls (_ bv6000000000 64)))\n(check-sat)\n(get-value (calls rank world))\n", cap)
+        small = verdict == "sat"
+        if verdict == "unsat" or verdict == "unknown":
+            verdict, answers2, dt2 = solve(base + "(check-sat)\n", cap)
+            dt += dt2
+            if verdict == "sat":
+                verdict, answers, _ = solve(base + "(check-sat)\n(get-value (calls rank world))\n", cap)
+            else:
+                answers = answers2
+        res["queries"] += 2
+        res["solver_s"] += dt
+        res["transitions"] += 1
+        res["samples"].append({"driver": drv, "sliced_share_expression": expr[:300], "verdict": verdict,
+                               "solvers": {n: a[0] for n, a in answers.items() if a[0] != "skip"}})
+        if verdict == "unsat":
+            st["discharged"] = 1
+            res["discharged"] += 1
+        elif verdict == "sat":
+            st["violated"] = 1
+            out = [a[1] for a in answers.values() if a[0] == "sat"][0]
+            vals = {}
+            for var in ("calls", "rank", "world"):
+                mm = re.search(r"\(%s (?:#x([0-9a-fA-F]+)|#b([01]+)|\(_ bv(\d+) \d+\))\)" % var, out)
+                if mm:
+                    vals[var] = int(mm.group(1), 16) if mm.group(1) else (int(mm.group(2), 2) if mm.group(2) else int(mm.group(3)))
+            confirmed = False
+            note = "counterexample on the IR slice of %s" % drv
+            if small and vals.get("calls", 1 << 62) < 6000000000:
+                if rexe is None:
+                    rexe = os.path.join(workdir, "replay_share")
+                    open(rexe + ".cpp", "w").write(REPLAY_SHARE)
+                    rc, o = sh(["g++", "-std=c++11", "-O2", "-I" + os.path.join(HERE, "sym", "mpi_stub"), "-I" + os.path.join(repo, "include"),
+                                rexe + ".cpp", "-o", rexe])
+                    if rc != 0:
+                        note += "; replay program did not compile: " + o[-200:]
+                        rexe = None
+                if rexe:
+                    rc, o = sh([rexe, str(which), str(vals["calls"]), str(vals["rank"]), str(vals["world"])], timeout=900)
+                    res["replays"] += 1
+                    confirmed = rc == 1
+                    note += "; real driver run with these values: " + o.strip()[-120:]
+            res["violations"].append({"check": key, "confirmed": confirmed, "inputs": {k: str(v) for k, v in vals.items()}, "choices": [], "note": note})
+        else:
+            st["unknown"] = 1
+            res["inconclusive"].append("%s: no solver decided the share expression within %ds" % (drv, cap))
+    return res
+
+
+KINDS = {"split": job_split, "share": job_share}
+
 
 
 def run_job(job, tier, idx, pid, repo):
